@@ -265,6 +265,12 @@ def c08(tier, seed):
 def c14(tier, seed):
     res = Result("C14", tier, seed, "exploration")
     wd = workdir("C14")
+    # design level: the one-sided Newton iteration returns the root from every start once the start is guarded; without the
+    # guard it must not (F18 - if TLC stops finding it the model has gone vacuous)
+    nw = run_mc("NewtonOneSided.tla", "MC_Newton.cfg", workers=4, timeout=600, coverage=False, name="MC_Newton")
+    nn = run_mc("NewtonOneSided.tla", "MC_Newton_neg.cfg", workers=4, timeout=600, coverage=False, name="MC_Newton_neg", expect_ok=False)
+    if nn["ok"] or "Exact" not in nn["violated"]:
+        raise ToolError("vacuity guard: NewtonOneSided without the guard no longer violates Exact")
     tr = os.path.join(wd, "conebarrier.ndjson")
     cnt = 2000 if tier == "quick" else 400000
     p = run_vh(["conebarrier", "--seed", seed, "--count", cnt, "--out", tr], timeout=4 * 3600)
@@ -300,7 +306,7 @@ def c14(tier, seed):
     if not (meta.get("pd_secant", 0) > 0 and meta.get("pd_fallback", 0) > 0 and fam.get("lattice_membership", 0) > 0
             and all(fam.get(f"{c}:{k}", 0) > 0 for c in ("Exp", "Pow", "GenPow") for k in ("calculus", "membership", "central"))):
         raise ToolError(f"C14 recorder did not exercise every family: {meta}")
-    res.coverage = {"evaluations": v["events"], "distinct_nontrivial": v["events"],
+    res.coverage = {"states": nw["states"], "transitions": nw["transitions"], "evaluations": v["events"], "distinct_nontrivial": v["events"],
                     "rule": "one evaluation = (a) one nonsymmetric cone (exponential; power with alpha in [0.08, 0.93]; generalised power with 2-3 exponents and 1-3 tail entries) at a generated "
                             "interior pair (s, z), magnitudes 1e-2..1e2 on either side, with random directions: 13-14 identities (dual gradient / Hessian / third-order term as central "
                             "differences of the cone's own lower-order quantity, logarithmic homogeneity, primal gradient as derivative of barrier_primal and as conjugate map, primal-dual "
